@@ -55,6 +55,15 @@ def prepare_error_class(kind):
             'is_bootstrapping': P.IsBootstrappingErrorMessage}[kind]
 
 
+def is_request_frame(q, query_id):
+    """the original request of the history: an EXECUTE of the statement id, or a BATCH that contains it"""
+    if q['op'] == 'EXECUTE':
+        return q.get('query_id') == query_id
+    if q['op'] == 'BATCH':
+        return any(x[0] == 'id' and x[1] == query_id for x in q['queries'])
+    return False
+
+
 def reference(order, reaction, answers, natural_mismatch, value_error):
     """-> (frames [(op, host)], outcome).  answers[i] = how EXECUTE arrival i is answered: 'unprepared' | 'rows' | 'void' |
     ('err', errgen-dict) | ('final-err', kind)."""
@@ -153,6 +162,10 @@ def run_history(seed):
     # which PreparedStatement object is executed: the one the cluster's (weak) statement cache holds; the FIRST of two objects prepared
     # for the same query after the second was dropped (the cache entry goes with it); or one prepared through another Cluster object
     psmode = rng.choices(['cached', 'first-of-two-later-dropped', 'other-cluster'], [6, 3, 1])[0]
+    # the request that carries the statement id: EXECUTE of the bound statement, or a BATCH of it (alone / mixed with a simple statement)
+    form = rng.choice(['execute', 'execute', 'execute', 'batch', 'batch-mixed'])
+    if form != 'execute':
+        psmode = 'cached'       # a batch future has no statement object of its own: only the cluster's cache can name the text
     with env:
         session2 = None
         if psmode == 'other-cluster':
@@ -171,6 +184,8 @@ def run_history(seed):
             ksmode = rng.choice(['none', 'session', 'changed', 'param', 'param+session', 'param+changed'])
         else:
             ksmode = rng.choice(['none', 'none', 'session', 'changed', 'attr-mismatch', 'attr-mismatch-session', 'attr-match'])
+        if form != 'execute' and ksmode == 'changed':
+            ksmode = 'session'      # id mismatch is only checked for a future with its own statement: not generated for batches
         uid = 1
         text = uid_query(uid, ' WHERE k = %d' % rng.randint(0, 99))
         if ksmode in ('session', 'changed', 'param+session', 'param+changed', 'attr-match'):
@@ -197,7 +212,7 @@ def run_history(seed):
         reaction = rng.choices(['same', 'diff', 'error', 'reset', 'close', 'silent'], [30, 20, 15, 10, 10, 8])[0]
         if reaction == 'error':
             reaction = ('error', rng.choice(PREPARE_ERRORS))
-        if natural_mismatch and reaction == 'diff':
+        if (natural_mismatch or form != 'execute') and reaction == 'diff':
             reaction = 'same'
 
         def final_answer():
@@ -215,6 +230,9 @@ def run_history(seed):
             answers.append('rows')           # only reached if the driver goes on after the failure
 
         def action_of(a):
+            if a == 'unprepared' and form != 'execute':
+                # a BATCH frame has no single id: the node names the one it does not know
+                return lambda node, cstate, req, uid_: node.error(cstate, req, 'unprepared', 'unprepared', query_id=ps.query_id)
             if a in ('unprepared', 'rows', 'void'):
                 return a
             if a[0] == 'err':
@@ -225,6 +243,15 @@ def run_history(seed):
         cl = rng.choice(C.CLS)
         bound = ps.bind(())
         bound.consistency_level = cl
+        if form != 'execute':
+            from cassandra.query import BatchStatement, SimpleStatement
+            inner = bound
+            bound = BatchStatement(consistency_level=cl)
+            if form == 'batch-mixed' and rng.random() < 0.5:
+                bound.add(SimpleStatement("INSERT INTO ks.t (k, v) VALUES (1, 2)"))
+            bound.add(inner)
+            if form == 'batch-mixed' and len(bound._statements_and_parameters) == 1:
+                bound.add(SimpleStatement("INSERT INTO ks.t (k, v) VALUES (3, 4)"))
         armed['a'] = dict(text=text, reaction=reaction, used=False)
         lbp.order = list(order)
         mark = len(env.net.wire_log)
@@ -233,7 +260,7 @@ def run_history(seed):
         env.world.settle(advance=False)
         with env.world.inspect():
             outs_before_time = len(rec.outcomes(uid))
-            frames_before_time = sum(1 for q in env.net.wire_log[mark:] if q['op'] == 'EXECUTE' and q.get('query_id') == ps.query_id
+            frames_before_time = sum(1 for q in env.net.wire_log[mark:] if is_request_frame(q, ps.query_id)
                                      or q['op'] == 'PREPARE' and q.get('query') == text)
         env.world.advance_to(env.world.now + REQUEST_TIMEOUT + 1.5)
         env.world.settle(advance=False)
@@ -241,14 +268,14 @@ def run_history(seed):
         with env.world.inspect():
             obs = []
             for q in env.net.wire_log[mark:]:
-                if q['op'] == 'EXECUTE' and q.get('query_id') == ps.query_id:
-                    obs.append(('EXECUTE', q['_node'], q.get('consistency'), None, None))
+                if is_request_frame(q, ps.query_id):
+                    obs.append(('EXECUTE', q['_node'], q.get('consistency'), None, None))      # 'EXECUTE' = the original request (EXECUTE or BATCH)
                 elif q['op'] == 'PREPARE' and q.get('query') == text:
                     obs.append(('PREPARE', q['_node'], None, q.get('keyspace'), q.get('query')))
                 elif q['op'] == 'PREPARE':
                     obs.append(('PREPARE-OTHER-TEXT', q['_node'], None, q.get('keyspace'), q.get('query')))
             outs = rec.outcomes(uid)
-            info = dict(seed=seed, proto=proto, nodes=n, plan=order, keyspace_scenario=ksmode, prepare_answer=reaction, statement_object=psmode,
+            info = dict(seed=seed, proto=proto, nodes=n, plan=order, keyspace_scenario=ksmode, prepare_answer=reaction, statement_object=psmode, request_form=form,
                         statement_object_in_cluster_cache=in_cache,
                         execute_answers=[a if isinstance(a, str) else (a[0], a[1]['kind'] if a[0] == 'err' else a[1]) for a in answers],
                         node_trace=[(o[0], o[1], o[3]) for o in obs], expected_trace=frames, expected_outcome=outcome[:2] if outcome[0] != 'rethrow' else ('rethrow', outcome[1]['kind']),
@@ -397,8 +424,8 @@ def run_late_history(seed):
         with env.world.inspect():
             obs = []
             for q in env.net.wire_log[mark:]:
-                if q['op'] == 'EXECUTE' and q.get('query_id') == ps.query_id:
-                    obs.append(('EXECUTE', q['_node'], q.get('consistency'), None, None))
+                if is_request_frame(q, ps.query_id):
+                    obs.append(('EXECUTE', q['_node'], q.get('consistency'), None, None))      # 'EXECUTE' = the original request (EXECUTE or BATCH)
                 elif q['op'] == 'PREPARE' and q.get('query') == text:
                     obs.append(('PREPARE', q['_node'], None, q.get('keyspace'), q.get('query')))
                 elif q['op'] == 'PREPARE':
@@ -525,6 +552,9 @@ def run(ctx):
     ctx.assume("an ERROR answer to the re-PREPARE fails the request with that error (what the driver documents in _execute_after_prepare); "
                "a connection lost during the re-PREPARE moves the request to the next host of the plan")
     ctx.assume("PreparedStatement.keyspace on v3/v4 is set by the harness (session.prepare cannot produce it on these versions)")
+    ctx.assume("for a BATCH of prepared statements neither an id-changing re-PREPARE answer nor a statement object missing from the cluster's "
+               "cache is generated: a batch future has no statement of its own to compare with or fall back to, and the property does not "
+               "say what should happen then")
     ctx.assume("a late PREPARE answer is only generated after the request FAILED; what the driver does with one that arrives after the request "
                "succeeded through another execution is not stated by the property and is not judged")
     n = ctx.scale(1500, 60000)
@@ -551,7 +581,7 @@ def run(ctx):
         for q in infos:
             rel = tuple(q['plan'])
             ctx.case(repr((q['proto'], q['nodes'], rel, q['keyspace_scenario'], q['prepare_answer'], tuple(map(str, q['execute_answers'])),
-                           q.get('statement_object'))))
+                           q.get('statement_object'), q.get('request_form'))))
             if q.get('statement_object') and q['statement_object'] != 'cached':
                 ctx.count("statement_object_" + q['statement_object'])
                 if not q['statement_object_in_cluster_cache']:
@@ -564,6 +594,8 @@ def run(ctx):
             if q['proto'] == 0x42:
                 ctx.count("histories_on_keyspace_carrying_protocol")
             ctx.count("histories_protocol_0x%02x" % q['proto'])
+            if q.get('request_form', 'execute') != 'execute':
+                ctx.count("histories_with_batch_of_prepared_statements")
             if q.get('late'):
                 ctx.count("late_prepare_answer_histories_judged" if q['situation_reached'] else "late_prepare_answer_situation_not_reached")
             if len(ctx.samples) < 5 and len(q['node_trace']) >= 3:
@@ -579,4 +611,4 @@ def run(ctx):
                           "outcome_ok": 20, "outcome_prepare-error": 10, "outcome_timeout": 5, "outcome_valueerror": 5, "outcome_nohost": 3,
                           "histories_on_keyspace_carrying_protocol": 20, "keyspace_scenario_param": 3,
                           "late_prepare_answer_histories_judged": 20, "executed_statement_not_the_object_in_the_cluster_cache": 30,
-                          "histories_protocol_0x41": 20, "histories_protocol_0x03": 10, "histories_protocol_0x04": 20}
+                          "histories_protocol_0x41": 20, "histories_with_batch_of_prepared_statements": 30, "histories_protocol_0x03": 10, "histories_protocol_0x04": 20}
